@@ -334,6 +334,8 @@ def check(report: Report, repo: Repo) -> None:
                         continue
                     code_t = TM.subst(case.term, sub) if sub else case.term
                     ref_t = TM.subst(rc[0], sub) if sub else rc[0]
+                    nf = TM.none_facts(case.guard)  # arguments the guard knows to be None
+                    code_t, ref_t = TM.replace_terms(code_t, nf), TM.replace_terms(ref_t, nf)
                     r, conv = symb.ratio(code_t, ref_t)
                     free = conv.data_free(r)
                     gs = TM.guard_str(case.guard)
